@@ -121,12 +121,13 @@ type sourceFile struct {
 }
 
 // packageFiles reads the package in srcDir: the Go source files that the go
-// tool puts into the package when the build tags are set, that carry the
-// package clause of the package. Like the go tool,
+// tool puts into the package both with and without the build tag goose (the Go
+// tests are compiled without it, goose translates with it; a test must exist on
+// both sides), that carry the package clause of the package. Like the go tool,
 // files of package documentation are ignored; of several package names in one
 // directory the most frequent one (the first one in file order among equals)
 // is the package, the other files are left out.
-func packageFiles(srcDir string, tags []string) []sourceFile {
+func packageFiles(srcDir string) []sourceFile {
 	entries, err := os.ReadDir(srcDir)
 	if err != nil {
 		fatal("%v\ncould not read the package directory", err)
@@ -144,7 +145,7 @@ func packageFiles(srcDir string, tags []string) []sourceFile {
 		if err == nil && info.IsDir() {
 			continue
 		}
-		if !isSourceFile(name) || !inPackage(srcDir, name, tags) {
+		if !isSourceFile(name) || !inPackage(srcDir, name, nil) || !inPackage(srcDir, name, []string{"goose"}) {
 			continue
 		}
 		f, err := parser.ParseFile(token.NewFileSet(), path.Join(srcDir, name), nil, parser.SkipObjectResolution)
@@ -242,12 +243,7 @@ func main() {
 		os.Exit(1)
 	}
 	srcDir := flag.Arg(0)
-	var tags []string
-	if t == "coq" {
-		// goose translates the package with the build tag goose set
-		tags = []string{"goose"}
-	}
-	files := packageFiles(srcDir, tags)
+	files := packageFiles(srcDir)
 
 	// the output is put together in memory and written only once the whole
 	// input has been read: a run that fails leaves an existing output file
